@@ -291,7 +291,11 @@ func typedCheck(c *vh.Ctx, m *vh.Model, e rlptypes.Entry, class string, b []byte
 		key = e.Name + hx
 	}
 	c.Eval("typed/"+e.Name+"/"+class, key)
-	c.Correspond("DecodeBytes+EncodeToBytes("+e.Name+")~typed_recode", e.Name+" "+hx, observed, m.Ask("typed 0x"+hex.EncodeToString([]byte(e.Name))+" "+hx))
+	req := "typed 0x" + hex.EncodeToString([]byte(e.Name)) + " " + hx
+	if d, ok := tyDescr[e.Name]; ok { // a type outside the generated registry: the model gets its descriptor (nilkinds.go)
+		req = "typed_ty 0x" + d + " " + hx
+	}
+	c.Correspond("DecodeBytes+EncodeToBytes("+e.Name+")~typed_recode", e.Name+" "+hx, observed, m.Ask(req))
 	if accepted && !bytes.Equal(b2, b) {
 		c.Violate("typed-noncanonical-accept/"+e.Name+"/"+hx, "typed decoding accepts an input that is not the encoding of the value it yields",
 			map[string]string{"type": e.Name, "input": hx, "reencoded": vh.Hex(b2)})
@@ -734,6 +738,8 @@ func main() {
 			}
 		}
 	}
+	// 5b. rlp:"nil" pointers to every element kind (nilkinds.go)
+	nilKindSection(c, m)
 	// 6. first use of a type from several goroutines at once (the typecache is shared
 	//    process state): fresh struct types, 8 workers behind a barrier, each encodes the
 	//    value, decodes the bytes into a new value and re-encodes; nobody may panic and
